@@ -155,6 +155,17 @@ func (t *transport) handle() {
 						// timeout errors where this is actually fatal.
 
 						// can only retry if we haven't offset the frame.
+						// Once the session is over there is nothing to
+						// retry for: a context whose deadline has passed
+						// makes ReadFcall fail with a timeout error at
+						// once, every time, and this loop would spin.
+						select {
+						case <-t.ctx.Done():
+							return
+						case <-t.closed:
+							return
+						default:
+						}
 						continue loop
 					}
 				}
